@@ -61,6 +61,7 @@ def worker_main(conn: Any) -> None:
     logging.disable(logging.ERROR)
     sc: Optional[S.Scheduler] = None
     stack: Optional[contextlib.ExitStack] = None
+    pending: List[int] = []         # indices of entries shipped before their operation had returned (actor parked inside it)
     while True:
         try:
             msg = conn.recv()
@@ -85,6 +86,7 @@ def worker_main(conn: Any) -> None:
                     return S.instrument_backend(the_sc, LocalStorageBackend(tp), lock_mode=lock_mode)
                 stack = contextlib.ExitStack()
                 stack.enter_context(S.patched(sc, factory, shared_rlock=True))
+                pending = []
                 shared_table = datashard.load_table(root) if shared else None
                 for name, op, style in specs:
                     sc.spawn(name, P.make_actor(root, op, shared_table, style))
@@ -102,7 +104,12 @@ def worker_main(conn: Any) -> None:
                 except S.Deadlock as e:
                     conn.send(("deadlock", str(e)))
                     continue
-                conn.send(("ok", _clean(sc.log[n0:]), list(sc.locklog[l0:]), _states(sc)))
+                # entries shipped earlier whose operation has returned meanwhile (an actor parked INSIDE an operation, e.g. at
+                # the flock inside a lock attempt): their final content is sent again, by index
+                updates = [(i, _clean([sc.log[i]])[0]) for i in pending if sc.log[i].get("result") is not None]
+                pending = [i for i in pending if sc.log[i].get("result") is None] + \
+                          [i for i in range(n0, len(sc.log)) if sc.log[i].get("result") is None]
+                conn.send(("ok", _clean(sc.log[n0:]), list(sc.locklog[l0:]), _states(sc), n0, updates))
             elif cmd == "end":
                 if sc is not None:
                     sc.kill_remaining()
@@ -196,6 +203,7 @@ class ProcScheduler(S.Scheduler):
     def __init__(self) -> None:
         super().__init__()
         self.remote: Dict[str, Worker] = {}
+        self.shipped: Dict[int, Dict[int, dict]] = {}      # per worker: its log index -> the entry object in self.log
 
     def spawn_remote(self, name: str, worker: Worker, st: Dict[str, Any]) -> S.Actor:
         a = S.Actor(name, lambda: None)
@@ -217,7 +225,12 @@ class ProcScheduler(S.Scheduler):
         r = w.call(("step", name, self.clock_ms))
         if r[0] == "deadlock":
             raise S.Deadlock(r[1])
-        _ok, entries, lockentries, states = r
+        _ok, entries, lockentries, states, n0, updates = r
+        mine = self.shipped.setdefault(id(w), {})
+        for i, new in updates:
+            mine[i].update(new)                  # same dict object as in self.log: completed in place
+        for k, e in enumerate(entries):
+            mine[n0 + k] = e
         self.log.extend(entries)
         self.locklog.extend(lockentries)
         a.trace.extend((e["op"], e["path"]) for e in entries)
@@ -261,7 +274,7 @@ def run_case(scratch: str, case: Dict[str, Any], chooser_factory: Callable[[S.Sc
     shutil.rmtree(root, ignore_errors=True)
     res = P.CaseResult()
     sc = ProcScheduler()
-    sc.fine_locks = bool(case.get("fine_locks", False))      # type: ignore[attr-defined]
+    sc.fine_locks = "all" if case.get("fine_locks") == "all" else bool(case.get("fine_locks", False))      # type: ignore[attr-defined]
     P._CURRENT[0] = sc
     sc.yield_filter = P.protocol_yield_filter
     lock_mode = case.get("lock", "real")
